@@ -447,12 +447,16 @@ def rule_r7_plain(ctx, prog, rule="R7"):
                         b.local_name(got["0"]), b.local_name(got["1"]))
                     fin = [d for d in b.reaching_defs(0, b.exits()[0], "term")]
                     okret = False
+                    n_ok = n_idx = 0
                     for d in fin:
                         e = strip(b.def_expr(0, d))
                         if isinstance(e, tuple) and e[0] == "agg" and e[2] == "Ok":
+                            n_ok += 1
                             inner = strip(e[3][0])
                             if isinstance(inner, tuple) and inner[0] == "phi" and inner[1] == got["0"]:
-                                okret = True
+                                n_idx += 1
+                    # every success value is the tracked index (no second success path with a default / recomputed index)
+                    okret = n_idx >= 1 and n_idx == n_ok
                     if not okret:
                         ok = False
                         detail = "the returned value is not the index variable updated with the running extremum"
